@@ -142,6 +142,6 @@ package regular
 //@ objinv Handler(h) by NewHandler over Handler.certValiditySec, Handler.agent, Handler.conf, conf.CertValiditySec: h.conf != nil && h.agent != nil && h.certValiditySec == h.conf.CertValiditySec
 //@ func NewHandler(gensignConf, conn)
 //@   requires gensignConf != nil
-//@   modifies *
+//@   modifies all
 //@   ensures err != nil ==> result0 == nil
 //@   ensures err == nil ==> (typeof(result0) == *Handler && pl(result0) != 0 && fresh(pl(result0)))
